@@ -920,6 +920,59 @@ theorem fixed_epoch1904_midnight_is_zero (off : Int) :
   rw [hz] at h
   exact h
 
+/-! ## round 5: the two date systems against each other, and the fictitious 1900-02-29 -/
+
+/-- offset law of the two date systems: the exact 1900-system serial of an instant is its 1904-system
+serial plus exactly 1462 days — 1461 calendar days from 1899-12-31 to 1904-01-01 plus the fictitious
+1900-02-29 — for EVERY instant from 1904-01-01T00:00:00 on, and for no earlier instant (there the 1904
+encoder returns 0) -/
+theorem system_offset_law (t : Int) :
+    timeToExcelTimeNs t false = timeToExcelTimeNs t true + 1462 * 86400000000000 ↔ epoch1904 ≤ t := by
+  obtain ⟨_, e4, emin, eb⟩ := epochs_ok
+  rw [serial_exact, serial_exact, e4, emin, eb]
+  simp only [Bool.false_eq_true, if_false, if_true]
+  constructor
+  · intro h
+    split at h <;> split at h <;> (try split at h) <;> omega
+  · intro h
+    split <;> split <;> (try split) <;> omega
+
+/-- the 1900 leap-year quirk as a boundary statement: an instant gets a serial below 60 exactly when it
+is not after 1900-02-28T23:59:59.999999999 (`excelBuggyPeriodStart`), and a serial of at least 61 exactly
+when it is after it; hence no instant is mapped into day 60 (the fictitious 1900-02-29), 59 ↦ 61 is the
+only jump. The 1904 system has no such gap: every non-negative serial n (in ns) is the serial of the
+instant epoch + n. -/
+theorem leap_quirk_boundary :
+    (∀ t : Int, timeToExcelTimeNs t false < 60 * 86400000000000 ↔ t ≤ buggyStart) ∧
+    (∀ t : Int, 61 * 86400000000000 ≤ timeToExcelTimeNs t false ↔ buggyStart < t) ∧
+    (∀ t : Int, ¬ (60 * 86400000000000 ≤ timeToExcelTimeNs t false ∧
+        timeToExcelTimeNs t false < 61 * 86400000000000)) ∧
+    (∀ n : Int, 0 ≤ n → timeToExcelTimeNs (epoch1904 + n) true = n) := by
+  obtain ⟨_, e4, emin, eb⟩ := epochs_ok
+  have h1 : ∀ t : Int, timeToExcelTimeNs t false < 60 * 86400000000000 ↔ t ≤ buggyStart := by
+    intro t
+    rw [serial_exact, emin, eb]
+    simp only [Bool.false_eq_true, if_false]
+    constructor
+    · intro h; split at h <;> (try split at h) <;> omega
+    · intro h; split <;> (try split) <;> omega
+  have h2 : ∀ t : Int, 61 * 86400000000000 ≤ timeToExcelTimeNs t false ↔ buggyStart < t := by
+    intro t
+    rw [serial_exact, emin, eb]
+    simp only [Bool.false_eq_true, if_false]
+    constructor
+    · intro h; split at h <;> (try split at h) <;> omega
+    · intro h; split <;> omega
+  refine ⟨h1, h2, ?_, ?_⟩
+  · intro t ⟨ha, hb⟩
+    have := (h1 t).not
+    have := (h2 t).not
+    omega
+  · intro n hn
+    rw [serial_exact, e4]
+    simp only [if_true]
+    split <;> omega
+
 /-! ## non-vacuity -/
 
 /-- the hypotheses of `serial_roundtrip` are satisfiable (2024-02-29 23:59:59 in a −09:30
